@@ -19,6 +19,14 @@ def main(repo="/repo", outdir=None):
         if old != res["text"]:
             open(path, "w").write(res["text"])
         report[mod.NAME] = {"errors": res["errors"], "changed": old != res["text"], "targets": [t.name for t in mod.TARGETS]}
+    import py2ast, targets_ast
+    importlib.reload(py2ast); importlib.reload(targets_ast)
+    res = py2ast.generate_ast(repo, targets_ast.SPECS)
+    path = os.path.join(outdir, targets_ast.NAME + ".lean")
+    old = open(path).read() if os.path.exists(path) else None
+    if old != res["text"]:
+        open(path, "w").write(res["text"])
+    report[targets_ast.NAME] = {"errors": res["errors"], "changed": old != res["text"], "targets": [sp["name"] + ".ast" for sp in targets_ast.SPECS]}
     json.dump(report, open(os.path.join(outdir, "gen_report.json"), "w"), indent=1)
     return report
 
